@@ -102,7 +102,10 @@ Decode(str) ==
   ELSE LET bd == DecBoard(fs[1], 1, 7, 0, EmptyBoard)
            turn == IF fs[2] = "w" THEN 0 ELSE IF fs[2] = "b" THEN 1 ELSE -1
            cr == ParseRights(fs[3])
-           ep == IF fs[4] = "-" THEN -1 ELSE ParseSquare(fs[4])
+           \* an en-passant target is the square behind a pawn that just made a double step:
+           \* it lies on the third or the sixth rank
+           ep == IF fs[4] = "-" THEN -1
+                 ELSE LET sq == ParseSquare(fs[4]) IN IF sq # -2 /\ Rank(sq) \in {2, 5} THEN sq ELSE -2
            np == ParseNat(fs[5])
            fm == ParseNat(fs[6])
        IN IF ~bd.ok \/ turn = -1 \/ cr = -1 \/ ep = -2 \/ np = -1 \/ fm = -1 THEN Reject
